@@ -27,6 +27,7 @@ static void gen_add(const GenCtx &ctx, Case &c, int viewpct) {
     n = 64 * (w - 1) + g::pick<int>({1, 2, 63, 64, g::rng(1, 64)});
   } else
     n = g::dim(std::max(capv, 64 * 12));
+  g::extreme_shape(ctx, m, n);
   c.set("m", m).set("n", n);
   c.set("underscore", g::coin(1, 4));
   std::string alias = g::wpick<std::string>({{4, "none"}, {2, "CeqA"}, {2, "CeqB"}, {1, "AeqB"}, {1, "all"}});
@@ -116,6 +117,7 @@ static void gen_transpose(const GenCtx &ctx, Case &c, int viewpct) {
     m = g::dim(capv, TR_THR);
     n = g::dim(capv, TR_THR);
   }
+  g::extreme_shape(ctx, m, n);
   c.set("m", m).set("n", n);
   g::pat(c, "A", m, n);
   g::place(c, "A", viewpct);
@@ -195,6 +197,7 @@ static void gen_copy(const GenCtx &ctx, Case &c, int viewpct) {
   c.sets("op", "mzd_copy");
   int capv = g::cap(ctx);
   int m = g::dim(std::min(capv, 150)), n = g::dim(std::max(capv, 200));
+  g::extreme_shape(ctx, m, n);
   c.set("m", m).set("n", n);
   g::pat(c, "A", m, n);
   g::place(c, "A", viewpct);
@@ -264,6 +267,7 @@ static void gen_submatrix(const GenCtx &ctx, Case &c, int viewpct) {
   c.sets("op", "mzd_submatrix");
   int capv = g::cap(ctx);
   int m = g::dim(std::min(capv, 120)), n = g::dim(std::max(capv, 260));
+  g::extreme_shape(ctx, m, n);
   c.set("m", m).set("n", n);
   int lowr = g::rng(0, m - 1), highr = g::rng(lowr + 1, m);
   int cls = g::rng(0, 5);
